@@ -1105,18 +1105,23 @@ func llmnrClient() {
 				kind := kinds[r.IntN(len(kinds))]
 				name := fmt.Sprintf("%s-g%02d-%04d.example", kind, g, i)
 				asked := name
-				if i%5 == 4 && kind != "none" {
+				if i%5 == 4 && (kind == "ok" || kind == "dup" || kind == "foreign" || kind == "query") { // scripts that answer at once
 					asked = name + "." // the fully-qualified spelling of the same name
 				}
 				var m *llmnr.Message
 				var err error
 				p, pv, st := mon.Guard(func() { m, err = cl.Query(context.Background(), asked, llmnr.TypeA) })
+				for attempt := 0; attempt < 3 && asked != name && !p && (err != nil || m == nil); attempt++ {
+					// the client's own timeout is wall-clock: a loaded machine may lose one round;
+					// only a name that is never answered in four rounds is judged
+					p, pv, st = mon.Guard(func() { m, err = cl.Query(context.Background(), asked, llmnr.TypeA) })
+				}
 				if asked != name && err == nil && m != nil {
 					answeredFQ.Add(1)
 				}
 				if asked != name && (err != nil || m == nil) && !p {
 					// the responder answers every such query at once: nothing to wait for
-					viol("llmnr.Client.Query:fully-qualified-name-unanswered", fmt.Sprintf("Query(%q) (script %s) returned %v although the responder answered its transaction id", asked, kind, err), map[string]any{"query_name": asked, "script": kind})
+					viol("llmnr.Client.Query:fully-qualified-name-unanswered", fmt.Sprintf("Query(%q) (script %s) returned %v in four attempts although the responder answers that script at once", asked, kind, err), map[string]any{"query_name": asked, "script": kind})
 				}
 				evals.Add(1)
 				cs := map[string]any{"query_name": name, "script": kind}
